@@ -5,6 +5,7 @@ package main
 import (
 	"fmt"
 	"go/ast"
+	"go/token"
 	"go/types"
 	"sort"
 	"strings"
@@ -83,7 +84,9 @@ func (u *Unit) loopContext(n ast.Node) []string {
 		case *ast.ForStmt:
 			if l.Body.Pos() <= n.Pos() && n.End() <= l.Body.End() {
 				c := "for"
-				if l.Cond != nil {
+				if be, ok := ast.Unparen(l.Cond).(*ast.BinaryExpr); ok && be.Op == token.LSS && identOf(be.X) != nil {
+					c = "range " + u.argShape(be.Y, l, 1)
+				} else if l.Cond != nil {
 					c += " " + u.argShape(l.Cond, l, 1)
 				}
 				out = append(out, c)
